@@ -1,4 +1,4 @@
-__all__ = ['timerange', 'timediff', 'timeadd', 'cmp_time']
+__all__ = ['timerange', 'timediff', 'timeadd', 'cmp_time', 'rollyear']
 
 __doc__ = """
 .. _timetuple
@@ -14,6 +14,23 @@ __doc__ = """
 """
 
 import unittest
+import numpy as np
+
+
+def rollyear(date):
+    """Julian dates (YYJJJ or YYYYJJJ, scalar or array) whose day of year
+    runs past the last day of their year, moved into the following year
+    """
+    date = np.asarray(date)
+    year, day = date // 1000, date % 1000
+    fullyear = np.where(year < 70, 2000 + year,
+                        np.where(year < 100, 1900 + year, year))
+    leap = ((fullyear % 4 == 0) &
+            ((fullyear % 100 != 0) | (fullyear % 400 == 0)))
+    ndays = 365 + leap
+    nextyear = np.where(year < 100, (year + 1) % 100, year + 1)
+    out = np.where(day > ndays, nextyear * 1000 + day - ndays, date)
+    return out.astype(date.dtype)
 
 
 def timerange(datetime1, datetime2, step=100, eod=2400.0):
